@@ -12,6 +12,7 @@ import re
 from fractions import Fraction
 
 from verif import core
+from verif.tree import strip as strip_
 from verif.tree import walk, walk_fn, show, stmt_list, meth, strip
 
 LEVEL = "other"
@@ -483,6 +484,85 @@ def run(chk):
                 if vt not in ("DOUBLE", "UDA"):
                     chk.violation(r_kw, key + ":type", "item %s of %s carries a dimension but has value_type %s" % (it.get("name"), d.get("name"), vt), path, None)
     chk.extra["keyword_files_scanned"] = nkw
+
+    # ---- C02.fpunit: the two places that give a cell property its unit
+    r_fp = chk.rule("C02.fpunit", "a cell property keyword has its unit in two places - the data item of the compiled-in keyword definition converts an explicit array, the unit_string of the FieldProps keyword table (FieldProps.hpp) converts the scalar of EQUALS/ADD/MINVALUE/.../OPERATE: both name the same dimension (same names with the same exponents, or names whose registered factors agree in all four deck unit systems)", floor=30)
+
+    def dimvec(x):
+        out = {}
+        if x is None:
+            return out
+        parts = x.split("/")
+        for sg, grp in ((1, parts[0]), (-1, "*".join(parts[1:]))):
+            for nm in grp.split("*"):
+                nm = nm.strip()
+                if nm and nm != "1":
+                    out[nm] = out.get(nm, 0) + sg
+        return {k: v for k, v in out.items() if v}
+    def numfac(x, sysname):
+        ad, _fn = adds[sysname]
+        val = 1.0
+        for nm, e in dimvec(x).items():
+            if nm not in ad:
+                return None
+            m = monomial(ad[nm][0][0], SYSTEMS[sysname])
+            if m is None:
+                t = show(strip(ad[nm][0][0]))
+                if t in ("1", "1.0"):
+                    f_ = 1.0
+                else:
+                    return None
+            else:
+                f_ = float(m[0])
+                for sym, ex in m[1].items():
+                    c_ = consts_fv.get("Opm::%s::%s" % (SYSTEMS[sysname], sym))
+                    if c_ is None:
+                        return None
+                    f_ *= c_ ** ex
+            val *= f_ ** e
+        return val
+
+    def same_factor(a, b):
+        """the two dimension strings convert with the same factor in each of the four deck unit systems"""
+        for sysname in SYSTEMS:
+            fa, fb = numfac(a, sysname), numfac(b, sysname)
+            if fa is None or fb is None or abs(fa - fb) > 1e-12 * max(abs(fa), abs(fb)):
+                return False
+        return True
+    kwdims = {}
+    for rel in listed:
+        try:
+            d = load_kw_json(os.path.join(kwroot, rel))
+        except Exception:
+            continue
+        if isinstance(d.get("data"), dict):
+            kwdims.setdefault(d.get("name"), []).append((rel, d["data"].get("dimension")))
+    fpx = chk.facts(["opm/input/eclipse/EclipseState/Grid/FieldProps.cpp"], files_re=r"^/repo/opm/input/eclipse/EclipseState/Grid/FieldProps\.(hpp|cpp)$")
+    n_fp = 0
+    for v in fpx.vars:
+        if not v["file"].endswith("FieldProps.hpp") or "keyword_info<double>" not in (v.get("t") or "") or not isinstance(v.get("init"), dict):
+            continue
+        for pair in walk(v["init"]):
+            if pair.get("k") not in ("Ctor", "InitList") or "std::pair<" not in (pair.get("t") or "")[:24]:
+                continue
+            kids = [c for c in (pair.get("a") or pair.get("c") or []) if isinstance(c, dict)]
+            if len(kids) != 2 or strip_(kids[0]).get("k") != "Str":
+                continue
+            name = strip_(kids[0])["v"]
+            us = [n for n in walk(kids[1]) if n.get("k") in ("MCall", "Call") and meth(n)[0] == "unit_string"]
+            unit = None
+            if us:
+                strs = [x["v"] for x in walk(us[0]["a"][0]) if x.get("k") == "Str"] if us[0].get("a") else []
+                unit = strs[0] if strs else "?"
+            if name not in kwdims:
+                chk.info(r_fp, "FieldProps table %s lists %s, for which no compiled-in keyword with a data item exists" % (v["q"].split("::")[-2], name))
+                continue
+            for rel, kdim in kwdims[name]:
+                key = "%s:%s" % (v["q"].split("::")[-2], name)
+                n_fp += 1
+                chk.instance(r_fp, key, nontrivial=unit is not None, sample=dict(keyword=name, table=v["q"], unit_string=unit, keyword_file=rel, data_dimension=kdim))
+                if dimvec(unit) != dimvec(kdim) and not same_factor(unit, kdim):
+                    chk.violation(r_fp, "%s=%s|%s" % (key, unit, kdim), "%s: the FieldProps table %s gives the unit `%s`, the keyword definition %s gives its data the dimension `%s`: an explicit array and the scalar of a box/region operation on the same keyword are converted with different factors" % (name, v["q"], unit, rel, kdim), v["file"], pair.get("l") or v["l"])
 
     # ---- output conversions
     r_io = chk.rule("C02.io", "convertFromSI / convertToSI of RestartValue and data::Solution are mirror images (from_si <-> to_si) and visit every entry", floor=4)
